@@ -31,32 +31,27 @@ Proof. reflexivity. Qed.
 
 (* the loop over [flat t] started at nesting level L, for the requested level d *)
 Lemma sp_run_tree t : ptree_ok t = true ->
-  forall (d L : nat) cur out,
+  forall (d L : nat) cur out, (L < d -> cur = []) ->
     sp_run (Z.of_nat d) (mk_spst (Z.of_nat L) cur out) (flat t) =
     if Nat.eqb L d then mk_spst (Z.of_nat L) (cur ++ shallow t) out
     else if Nat.ltb d L then mk_spst (Z.of_nat L) cur out
-    else match cur with
-         | [] => mk_spst (Z.of_nat L) [] (out ++ deep (d - L - 1) t)
-         | _ => sp_run (Z.of_nat d) (mk_spst (Z.of_nat L) cur out) (flat t)
-         end.
+    else mk_spst (Z.of_nat L) [] (out ++ deep (d - L - 1) t).
 Proof.
-  induction t as [|c t IH|g IHg t IHt]; intros Hok d L cur out.
+  induction t as [|c t IH|g IHg t IHt]; intros Hok d L cur out Hcur.
   - cbn [flat shallow]. unfold sp_run. cbn [fold_left].
-    destruct (Nat.eqb L d); [now rewrite app_nil_r|]. destruct (Nat.ltb d L); [reflexivity|].
-    destruct cur; [|reflexivity]. destruct (d - L - 1); cbn; now rewrite app_nil_r.
+    destruct (Nat.eqb L d) eqn:E; [now rewrite app_nil_r|]. destruct (Nat.ltb d L) eqn:E2; [reflexivity|].
+    apply Nat.eqb_neq in E. apply Nat.ltb_ge in E2. rewrite Hcur by lia.
+    destruct (d - L - 1); cbn; now rewrite app_nil_r.
   - cbn [ptree_ok] in Hok. apply andb_true_iff in Hok as [Hc Hok]. apply andb_true_iff in Hc as [H1 H2].
     apply negb_true_iff in H1, H2.
     cbn [flat shallow]. rewrite sp_run_cons, sp_step_plain by assumption.
     destruct (Nat.eqb L d) eqn:E.
-    + apply Nat.eqb_eq in E. subst L. rewrite Z.eqb_refl. rewrite (IH Hok), Nat.eqb_refl.
+    + apply Nat.eqb_eq in E. subst L. rewrite Z.eqb_refl. rewrite (IH Hok) by lia. rewrite Nat.eqb_refl.
       now rewrite <- app_assoc.
     + apply Nat.eqb_neq in E.
       assert (Hz : Z.eqb (Z.of_nat L) (Z.of_nat d) = false) by (apply Z.eqb_neq; lia). rewrite Hz.
-      rewrite (IH Hok). apply Nat.eqb_neq in E. rewrite E. destruct (Nat.ltb d L); [reflexivity|].
-      destruct cur; [reflexivity|].
-      (* cur non-empty: nothing is claimed *)
-      rewrite <- (sp_step_plain (Z.of_nat d) (Z.of_nat L) (a :: cur) out c H1 H2) at 1.
-      now rewrite Hz.
+      rewrite (IH Hok) by assumption. apply Nat.eqb_neq in E. rewrite E. destruct (Nat.ltb d L); [reflexivity|].
+      destruct (d - L - 1); reflexivity.
   - cbn [ptree_ok] in Hok. apply andb_true_iff in Hok as [Hg Ht].
     cbn [flat shallow]. rewrite sp_run_cons, sp_step_open.
     change (flat g ++ rpar :: flat t) with (flat g ++ [rpar] ++ flat t).
@@ -64,7 +59,7 @@ Proof.
     replace (Z.of_nat L + 1)%Z with (Z.of_nat (S L)) by lia.
     destruct (Nat.eqb L d) eqn:E.
     + apply Nat.eqb_eq in E. subst L. rewrite Z.eqb_refl. cbn [orb].
-      rewrite (IHg Hg).
+      rewrite (IHg Hg) by lia.
       assert (E1 : Nat.eqb (S d) d = false) by (apply Nat.eqb_neq; lia). rewrite E1.
       assert (E2 : Nat.ltb d (S d) = true) by (apply Nat.ltb_lt; lia). rewrite E2.
       cbn [app]. rewrite sp_run_cons, sp_step_close. cbn zeta.
@@ -72,49 +67,44 @@ Proof.
       assert (Z2 : Z.eqb (Z.of_nat (S d) - 1) (Z.of_nat d) = true) by (apply Z.eqb_eq; lia).
       rewrite Z1, Z2. cbn [orb].
       replace (Z.of_nat (S d) - 1)%Z with (Z.of_nat d) by lia.
-      rewrite (IHt Ht), Nat.eqb_refl. rewrite <- !app_assoc. reflexivity.
+      rewrite (IHt Ht) by lia. rewrite Nat.eqb_refl. rewrite <- !app_assoc. reflexivity.
     + apply Nat.eqb_neq in E.
       assert (Hz : Z.eqb (Z.of_nat L) (Z.of_nat d) = false) by (apply Z.eqb_neq; lia). rewrite Hz. cbn [orb].
       destruct (Nat.ltb d L) eqn:Elt.
       * apply Nat.ltb_lt in Elt.
         assert (Z1 : Z.eqb (Z.of_nat (S L)) (Z.of_nat d) = false) by (apply Z.eqb_neq; lia). rewrite Z1.
-        rewrite (IHg Hg).
+        rewrite (IHg Hg) by lia.
         assert (E1 : Nat.eqb (S L) d = false) by (apply Nat.eqb_neq; lia). rewrite E1.
         assert (E2 : Nat.ltb d (S L) = true) by (apply Nat.ltb_lt; lia). rewrite E2.
         cbn [app]. rewrite sp_run_cons, sp_step_close. cbn zeta.
         assert (Z2 : Z.eqb (Z.of_nat (S L) - 1) (Z.of_nat d) = false) by (apply Z.eqb_neq; lia).
         rewrite Z1, Z2. cbn [orb].
         replace (Z.of_nat (S L) - 1)%Z with (Z.of_nat L) by lia.
-        rewrite (IHt Ht). apply Nat.eqb_neq in E. rewrite E.
+        rewrite (IHt Ht) by lia. apply Nat.eqb_neq in E. rewrite E.
         assert (E3 : Nat.ltb d L = true) by (apply Nat.ltb_lt; lia). now rewrite E3.
       * apply Nat.ltb_ge in Elt. assert (Hlt : L < d) by lia.
-        apply Nat.eqb_neq in E. rewrite E.
-        destruct cur as [|a cur].
-        2:{ (* nothing claimed *)
-            rewrite sp_run_app. cbn [app].
-            replace (Z.of_nat (S L)) with (Z.of_nat L + 1)%Z by lia.
-            rewrite <- sp_step_open. rewrite Hz. cbn [orb]. reflexivity. }
+        rewrite (Hcur Hlt).
         destruct (Nat.eqb (S L) d) eqn:E1.
         -- apply Nat.eqb_eq in E1. subst d.
            rewrite Z.eqb_refl. cbn [app].
-           rewrite (IHg Hg), Nat.eqb_refl.
+           rewrite (IHg Hg) by lia. rewrite Nat.eqb_refl.
            rewrite sp_run_cons, sp_step_close. cbn zeta. rewrite Z.eqb_refl. cbn [orb].
            replace (Z.of_nat (S L) - 1)%Z with (Z.of_nat L) by lia.
-           rewrite (IHt Ht).
+           rewrite (IHt Ht) by reflexivity.
            assert (E2 : Nat.eqb L (S L) = false) by (apply Nat.eqb_neq; lia). rewrite E2.
            assert (E3 : Nat.ltb (S L) L = false) by (apply Nat.ltb_ge; lia). rewrite E3.
            replace (S L - L - 1) with 0 by lia. cbn [deep groups map].
            rewrite <- app_assoc. reflexivity.
         -- apply Nat.eqb_neq in E1.
            assert (Z1 : Z.eqb (Z.of_nat (S L)) (Z.of_nat d) = false) by (apply Z.eqb_neq; lia). rewrite Z1.
-           rewrite (IHg Hg).
+           rewrite (IHg Hg) by reflexivity.
            assert (E2 : Nat.eqb (S L) d = false) by (apply Nat.eqb_neq; lia). rewrite E2.
            assert (E3 : Nat.ltb d (S L) = false) by (apply Nat.ltb_ge; lia). rewrite E3.
            cbn [app]. rewrite sp_run_cons, sp_step_close. cbn zeta.
            assert (Z2 : Z.eqb (Z.of_nat (S L) - 1) (Z.of_nat d) = false) by (apply Z.eqb_neq; lia).
            rewrite Z1, Z2. cbn [orb].
            replace (Z.of_nat (S L) - 1)%Z with (Z.of_nat L) by lia.
-           rewrite (IHt Ht).
+           rewrite (IHt Ht) by reflexivity.
            assert (E4 : Nat.eqb L d = false) by (apply Nat.eqb_neq; lia). rewrite E4.
            assert (E5 : Nat.ltb d L = false) by (apply Nat.ltb_ge; lia). rewrite E5.
            replace (d - L - 1) with (S (d - S L - 1)) by lia.
@@ -127,7 +117,7 @@ Qed.
 Theorem strip_levels t d : ptree_ok t = true -> strip_paren (flat t) d = level_slices d t.
 Proof.
   intros Hok. unfold strip_paren.
-  change 0%Z with (Z.of_nat 0). rewrite (sp_run_tree t Hok d 0 [] []).
+  change 0%Z with (Z.of_nat 0). rewrite (sp_run_tree t Hok d 0 [] []) by reflexivity.
   destruct d as [|d].
   - cbn [Nat.eqb app level_slices]. unfold sp_finish. cbn [sp_cur sp_out]. destruct (shallow t); reflexivity.
   - cbn [Nat.eqb Nat.ltb Nat.leb level_slices]. unfold sp_finish. cbn [sp_cur sp_out app].
@@ -195,6 +185,13 @@ with tree_d (d : desig) : ptree :=
   end.
 
 (* the text of one level: argument lists and parenthesised operands emptied *)
+Fixpoint sh_d (d : desig) : str :=
+  match d with
+  | DLast0 x => x
+  | DLastA x _ => x ++ [lpar; rpar]
+  | DPart0 x r => x ++ pct :: sh_d r
+  | DPartA x _ r => x ++ lpar :: rpar :: pct :: sh_d r
+  end.
 Fixpoint sh_e (e : expr) : str :=
   match e with
   | ELit t => t
@@ -202,16 +199,16 @@ Fixpoint sh_e (e : expr) : str :=
   | EPar _ => [lpar; rpar]
   | EUn op e' => op ++ sh_e e'
   | EBin a op b => sh_e a ++ op ++ sh_e b
-  end
-with sh_d (d : desig) : str :=
-  match d with
-  | DLast0 x => x
-  | DLastA x _ => x ++ [lpar; rpar]
-  | DPart0 x r => x ++ pct :: sh_d r
-  | DPartA x _ r => x ++ lpar :: rpar :: pct :: sh_d r
   end.
 
 (* the parenthesised parts one level down, left to right *)
+Fixpoint subs_d (d : desig) : list expr :=
+  match d with
+  | DLast0 _ => []
+  | DLastA _ a => [a]
+  | DPart0 _ r => subs_d r
+  | DPartA _ a r => a :: subs_d r
+  end.
 Fixpoint subs_e (e : expr) : list expr :=
   match e with
   | ELit _ => []
@@ -219,13 +216,6 @@ Fixpoint subs_e (e : expr) : list expr :=
   | EPar e' => [e']
   | EUn _ e' => subs_e e'
   | EBin a _ b => subs_e a ++ subs_e b
-  end
-with subs_d (d : desig) : list expr :=
-  match d with
-  | DLast0 _ => []
-  | DLastA _ a => [a]
-  | DPart0 _ r => subs_d r
-  | DPartA _ a r => a :: subs_d r
   end.
 
 Scheme expr_mut := Induction for expr Sort Prop
@@ -238,8 +228,7 @@ Proof.
   apply expr_desig_ind; intros; cbn [tree_e tree_d render_e render_d flat];
     rewrite ?flat_app, ?flat_str; cbn [flat]; rewrite ?flat_app, ?flat_str; cbn [flat];
     repeat match goal with H : flat _ = _ |- _ => rewrite H; clear H end;
-    rewrite ?app_nil_r; try reflexivity.
-  - now rewrite <- app_assoc.
+    rewrite ?app_nil_r; try reflexivity; try now rewrite <- ?app_assoc.
 Qed.
 
 Lemma tree_shallow :
@@ -260,15 +249,22 @@ Proof.
 Qed.
 
 (* ---- no parenthesis inside the leaves of a well-formed expression ---- *)
+Lemma word_not_paren c : is_word c = true -> Ascii.eqb c lpar = false /\ Ascii.eqb c rpar = false.
+Proof.
+  intros W. split.
+  - destruct (Ascii.eqb c lpar) eqn:E1; [apply Ascii.eqb_eq in E1; subst c; discriminate|reflexivity].
+  - destruct (Ascii.eqb c rpar) eqn:E2; [apply Ascii.eqb_eq in E2; subst c; discriminate|reflexivity].
+Qed.
+
+Lemma no_paren_cons c t : no_paren (c :: t) = negb (Ascii.eqb c lpar) && negb (Ascii.eqb c rpar) && no_paren t.
+Proof. reflexivity. Qed.
+
 Lemma inert_from_no_paren b t : inert_from b t = true -> no_paren t = true.
 Proof.
   revert b. induction t as [|c t IH]; intros b H; [reflexivity|].
-  cbn [inert_from] in H. cbn [no_paren forallb].
+  cbn [inert_from] in H. rewrite no_paren_cons.
   destruct (is_word c) eqn:W.
-  - rewrite (IH _ H), andb_true_r.
-    unfold is_word, is_alpha, is_upper, is_lower, is_digit in W.
-    destruct (Ascii.eqb c lpar) eqn:E1; [apply Ascii.eqb_eq in E1; subst c; discriminate|].
-    destruct (Ascii.eqb c rpar) eqn:E2; [apply Ascii.eqb_eq in E2; subst c; discriminate|]. reflexivity.
+  - rewrite (IH _ H), andb_true_r. destruct (word_not_paren c W) as [E1 E2]. now rewrite E1, E2.
   - destruct (bad_char c) eqn:B; [discriminate|].
     unfold bad_char in B. apply orb_false_iff in B as [B _]. apply orb_false_iff in B as [B _].
     apply orb_false_iff in B as [B1 B2]. rewrite B1, B2. cbn [negb andb].
@@ -278,9 +274,7 @@ Qed.
 Lemma word_no_paren x : forallb is_word x = true -> no_paren x = true.
 Proof.
   induction x as [|c x IH]; intros H; [reflexivity|]. cbn [forallb] in H. apply andb_true_iff in H as [W H].
-  cbn [no_paren forallb]. rewrite (IH H), andb_true_r.
-  destruct (Ascii.eqb c lpar) eqn:E1; [apply Ascii.eqb_eq in E1; subst c; discriminate|].
-  destruct (Ascii.eqb c rpar) eqn:E2; [apply Ascii.eqb_eq in E2; subst c; discriminate|]. reflexivity.
+  rewrite no_paren_cons, (IH H), andb_true_r. destruct (word_not_paren c W) as [E1 E2]. now rewrite E1, E2.
 Qed.
 
 Lemma name_ok_word x : name_ok x = true -> forallb is_word x = true /\ x <> [].
